@@ -7,7 +7,9 @@ PROPS = {
     "C19": ["u_graddesc"],
     "C17": ["u_surrogate"],
     "C14": ["u_apiwrap"],
-    "C01": ["u_indexsets"],
+    "C01": ["u_indexsets", "u_basis"],
+    "C03": ["u_tables", "u_basis"],
+    "C04": ["u_basis"],
     "C18": ["u_candman"],
     "C20": ["u_pswarm"],
 }
@@ -50,6 +52,12 @@ PROP_META = {
   "level_text": "pending", "level_note": "pending", "assumptions": COMMON_ASSUME, "not_decided": [],
  },
  "C20": {
+  "level_text": "pending", "level_note": "pending", "assumptions": COMMON_ASSUME, "not_decided": [],
+ },
+ "C03": {
+  "level_text": "pending", "level_note": "pending", "assumptions": COMMON_ASSUME, "not_decided": [],
+ },
+ "C04": {
   "level_text": "pending", "level_note": "pending", "assumptions": COMMON_ASSUME, "not_decided": [],
  },
 }
